@@ -155,6 +155,12 @@ func (g *gen) one(x exchange) {
 	if x.Via != "" {
 		desc["via"] = x.Via
 	}
+	if x.After != "" {
+		desc["previous_exchange_on_the_connection"] = x.After
+	}
+	if s.Interim != 0 {
+		desc["interim_status"] = s.Interim
+	}
 	if x.Twice {
 		desc["same_request_object_twice"] = true
 	}
@@ -172,6 +178,12 @@ func (g *gen) one(x exchange) {
 			tag = ":live-opened-" + x.Opened.name()
 			if strings.Contains(x.LiveKey, "clone") {
 				tag = ":clone-of-a-used-client"
+			}
+			if x.After != "" {
+				tag = ":after-" + x.After
+			}
+			if s.Interim != 0 {
+				tag = fmt.Sprintf(":interim-%d-first", s.Interim)
 			}
 		}
 		if x.Via != "" {
@@ -396,5 +408,9 @@ func (g *gen) run() {
 	g.runClones()
 	// P. zstd windows
 	g.runZstdWindows()
+	// Q. after a bodiless answer;  R. interim responses;  S. gzip header fields
+	g.runAfterBodiless()
+	g.runInterim()
+	g.runGzipHeaders()
 	g.flushSeq(len(g.seqCases))
 }
